@@ -450,8 +450,10 @@ where
         // add the new element in the qp vector as the last in the heap
         self.store.qp.push(Position(i));
         self.store.heap.push(Index(i));
-        self.bubble_up(Position(i), Index(i));
+        // the tables are consistent again from here on, even if a
+        // comparison panics while the new element is sifted up
         self.store.size += 1;
+        self.bubble_up(Position(i), Index(i));
         None
     }
 
@@ -745,13 +747,20 @@ where
     /// than the new element is found
     fn bubble_up(&mut self, mut position: Position, map_position: Index) -> Position {
         let priority = self.store.map.get_index(map_position.0).unwrap().1;
-        let mut parent_position = Position(0);
-        while if position.0 > 0 {
-            parent_position = parent(position);
-            (unsafe { self.store.get_priority_from_position(parent_position) }) < priority
-        } else {
-            false
-        } {
+        // Find the destination first: the comparisons run user code that may
+        // panic, and the tables must stay consistent if they do
+        let mut destination = position;
+        while destination.0 > 0 {
+            let parent_position = parent(destination);
+            if (unsafe { self.store.get_priority_from_position(parent_position) }) < priority {
+                destination = parent_position;
+            } else {
+                break;
+            }
+        }
+        // Then move the parents down
+        while position != destination {
+            let parent_position = parent(position);
             unsafe {
                 let parent_index = *self.store.heap.get_unchecked(parent_position.0);
                 *self.store.heap.get_unchecked_mut(position.0) = parent_index;
@@ -766,10 +775,6 @@ where
         position
     }
 
-    /// Internal function that moves a leaf in position `i` to its correct place in the heap
-    /// and restores the functional property
-    ///
-    /// Computes in **O(log(N))**
     fn up_heapify(&mut self, i: Position) {
         let tmp = unsafe { *self.store.heap.get_unchecked(i.0) };
         let pos = self.bubble_up(i, tmp);
